@@ -35,6 +35,10 @@ const (
 	// header followed by a 1-byte targetSz LEB128 header (the
 	// shortest case being targetSz=0 with no operations).
 	minDeltaSize = 2
+
+	// gitDeltaSizeMin is git's DELTA_SIZE_MIN (delta.h): the smallest delta
+	// patch_delta applies, and so the smallest one a pack may carry.
+	gitDeltaSizeMin = 4
 )
 
 type offset struct {
@@ -336,6 +340,15 @@ func patchDelta(dst *bytes.Buffer, src, delta []byte) error {
 func patchDeltaWriter(dst io.Writer, base io.ReaderAt, deltaBuf *bufio.Reader,
 	typ plumbing.ObjectType, writeHeader objectHeaderWriter, of format.ObjectFormat,
 ) (uint, plumbing.Hash, error) {
+	// git's patch_delta refuses a delta shorter than DELTA_SIZE_MIN before
+	// looking at it, so index-pack rejects a pack that carries one.
+	if _, err := deltaBuf.Peek(gitDeltaSizeMin); err != nil {
+		if err == io.EOF {
+			return 0, plumbing.ZeroHash, ErrInvalidDelta
+		}
+		return 0, plumbing.ZeroHash, err
+	}
+
 	srcSz, err := packutil.DecodeLEB128FromReader(deltaBuf)
 	if err != nil {
 		if err == io.EOF {
